@@ -37,6 +37,9 @@ type ChiSquaredDistribution struct {
 /* -------------------------------------------------------------------------- */
 
 func NewChiSquaredDistribution(t ScalarType, k_ float64) (*ChiSquaredDistribution, error) {
+  if math.IsNaN(k_) {
+    return nil, fmt.Errorf("invalid parameters")
+  }
   if k_ <= 0.0 {
     return nil, fmt.Errorf("invalid value for parameter k: %f", k_)
   }
